@@ -1,10 +1,67 @@
 (* C06 — Converters and streaming reader are total and re-entrant.
-   PLACEHOLDER until the converter models of C01-C04 exist: the totality theorems of the
-   models (dec_in_total, enc_in_total, dec_out_total, enc_out_total, parse_total) are
-   assembled here from Proofs/InTotal.v and Proofs/OutTotal.v. What is stated now is only
-   the meaning of the oracle. *)
-From RP Require Import Lib.Base Spec.Total.
+   Only statements here; each closed by [exact] of a lemma from Proofs/.
 
+   The models (Model/DecIn.v, EncIn.v, DecOut.v, EncOut.v, Gfx.v) carry every panic site of
+   the Go source as an explicit [Panic n] result (nil dereference through direct field access,
+   regex sub-match indexing, slice bounds); a result list has element type [InboundMessage] /
+   [out_msg], i.e. it cannot hold a nil message.  Totality = the result is [Ok _]:
+     - decoders and the streaming reader: for ALL lists of ALL byte strings (indeed all lists of
+       integers), every behaviour of the encoding/json oracles;
+     - encoders: for all messages of the shape proto.Unmarshal can produce - any presence
+       pattern of optional sub-messages, enums and integers anywhere, any bytes in strings; the
+       one hypothesis is "no nil element in a repeated message field", which the wire format
+       cannot produce (and which IS a panic site: [c06_enc_in_nil_state_panics]).
+   Hanging: every model function is structurally recursive on its input lists (accepted by
+   Coq's guard checker without fuel) - that is the termination argument for the loops they
+   mirror.
+   PARTIAL (re-entrancy): the models are pure functions, so "concurrent = sequential" is
+   trivial of the model; what it stands for in the code - no shared mutable state - is a
+   runtime fact tied by execution (harness/total: every case from 16 goroutines), not proved.
+   The models themselves are tied to the code by the C01-C04 correspondence checks, whose
+   generators include the malformed stream and the presence-pattern sweeps. *)
+From RP Require Import Lib.Base Model.MsgIn Model.DecIn Model.EncIn Model.MsgOut Model.DecOut Model.EncOut Model.Gfx
+  Spec.Total Proofs.InTotal Proofs.OutTotal Proofs.TotalAll.
+
+Theorem c06_dec_in_total : forall (json_state : list Z -> HWCState)
+    (json_msgs : list Z -> list (option InboundMessage)) (nc_parse : list Z -> option (list Z))
+    (ls : list (list Z)),
+  exists ms : list InboundMessage, dec_in json_state json_msgs nc_parse ls = Ok ms.
+Proof. exact dec_in_total. Qed.
+Print Assumptions c06_dec_in_total.
+
+Theorem c06_enc_in_total : forall (json_enc : HWCState -> list Z) (nc_print : list Z -> list Z)
+    (ms : list InboundMessage),
+  Forall InTotal.wire_reachable ms -> exists ls : list (list Z), enc_in json_enc nc_print ms = Ok ls.
+Proof. exact enc_in_total. Qed.
+Print Assumptions c06_enc_in_total.
+
+Theorem c06_dec_out_total : forall (netparse : bytes -> option bytes) (ls : list bytes),
+  exists ms : list out_msg, dec_out netparse ls = Ok ms.
+Proof. exact dec_out_total. Qed.
+Print Assumptions c06_dec_out_total.
+
+Theorem c06_enc_out_total : forall (flat flat_svg : bytes -> bytes) (ms : list (option out_msg))
+    (ords : list (list (Z * Z))),
+  no_nil ms ->
+  Forall (fun o : option out_msg => match o with Some m => OutTotal.wire_reachable m | None => True end) ms ->
+  exists ls : list bytes, enc_out flat flat_svg ords ms = Ok ls.
+Proof. exact enc_out_total. Qed.
+Print Assumptions c06_enc_out_total.
+
+(* the streaming reader, from ANY reader state, over any history of lines *)
+Theorem c06_reader_total : forall (json_state : list Z -> HWCState)
+    (json_msgs : list Z -> list (option InboundMessage)) (nc_parse : list Z -> option (list Z))
+    (lines : list (list Z)) (st : reader),
+  exists ms : list InboundMessage, reader_run json_state json_msgs nc_parse st lines = Ok ms.
+Proof. exact reader_run_total. Qed.
+Print Assumptions c06_reader_total.
+
+(* the encoder hypothesis is necessary: a nil element of a repeated field is a panic site *)
+Example c06_enc_in_nil_state_panics : forall je ncp,
+  enc_in je ncp [MsgIn.mkMsg 0 None [None] []] = Panic 701.
+Proof. exact enc_in_nil_state_panics. Qed.
+
+(* meaning of the oracle applied to one observed call of the implementation *)
 Theorem c06_oracle_ok_iff : forall o,
   judge_call o = TotOk <-> o_status o = StOk /\ o_nils o = 0 /\ o_conc o = true.
 Proof.
@@ -14,3 +71,7 @@ Proof.
     destruct H as (_ & H1 & H2); try congruence.
 Qed.
 Print Assumptions c06_oracle_ok_iff.
+
+(* non-vacuity: a wire-reachable message with sub-messages present and absent *)
+Example c06_nonvacuous : InTotal.wire_reachable (MsgIn.mkMsg 1 None [] []) /\ no_nil (@nil (option out_msg)).
+Proof. split; [split; constructor | constructor]. Qed.
